@@ -14,7 +14,9 @@ import time
 from . import build
 
 VERIF = build.VERIF
-EVID = os.path.join(VERIF, 'evidence')
+# VERIF_EVIDENCE_DIR redirects evidence (used when a seeded breaking change is applied: that run must not overwrite the
+# evidence of the real tree)
+EVID = os.environ.get('VERIF_EVIDENCE_DIR') or os.path.join(VERIF, 'evidence')
 KF_FILE = os.path.join(VERIF, 'known_findings.json')
 
 
